@@ -3,6 +3,7 @@ package chk
 import (
 	"go/ast"
 	"go/constant"
+	"go/token"
 	"sort"
 	"strings"
 )
@@ -20,29 +21,79 @@ func ruleCropCases(c *Ctx, r *Report) {
 	var pos string
 	for _, f := range p.Syntax {
 		ast.Inspect(f, func(n ast.Node) bool {
-			sw, ok := n.(*ast.SwitchStmt)
-			if !ok || sw.Tag == nil {
-				return true
-			}
 			lits := map[string]string{}
-			for _, cc := range sw.Body.List {
-				cl := cc.(*ast.CaseClause)
-				for _, e := range cl.List {
-					if tv := p.TypesInfo.Types[e]; tv.Value != nil && tv.Value.Kind() == constant.String {
-						callee := ""
-						for _, st := range cl.Body {
-							ast.Inspect(st, func(m ast.Node) bool {
-								if ce, ok := m.(*ast.CallExpr); ok {
-									if id, ok := ce.Fun.(*ast.Ident); ok && callee == "" {
-										callee = id.Name
-									}
-								}
-								return true
-							})
+			firstCallee := func(body []ast.Stmt) string {
+				callee := ""
+				for _, st := range body {
+					ast.Inspect(st, func(m ast.Node) bool {
+						if ce, ok := m.(*ast.CallExpr); ok {
+							if id, ok := ce.Fun.(*ast.Ident); ok && callee == "" {
+								callee = id.Name
+							}
 						}
-						lits[constant.StringVal(tv.Value)] = callee
+						return true
+					})
+				}
+				return callee
+			}
+			var at token.Pos
+			switch sw := n.(type) {
+			case *ast.SwitchStmt:
+				if sw.Tag == nil {
+					return true
+				}
+				at = sw.Pos()
+				for _, cc := range sw.Body.List {
+					cl := cc.(*ast.CaseClause)
+					for _, e := range cl.List {
+						if tv := p.TypesInfo.Types[e]; tv.Value != nil && tv.Value.Kind() == constant.String {
+							lits[constant.StringVal(tv.Value)] = firstCallee(cl.Body)
+						}
 					}
 				}
+			case *ast.IfStmt:
+				// the same dispatch written as an if / else-if chain on `x == "lit"` (or `x == "a" || x == "b"`)
+				at = sw.Pos()
+				var condLits func(e ast.Expr) []string
+				condLits = func(e ast.Expr) []string {
+					be, ok := e.(*ast.BinaryExpr)
+					if !ok {
+						return nil
+					}
+					if be.Op == token.LOR {
+						a, b := condLits(be.X), condLits(be.Y)
+						if a == nil || b == nil {
+							return nil
+						}
+						return append(a, b...)
+					}
+					if be.Op != token.EQL {
+						return nil
+					}
+					for _, o := range []ast.Expr{be.X, be.Y} {
+						if tv := p.TypesInfo.Types[o]; tv.Value != nil && tv.Value.Kind() == constant.String {
+							return []string{constant.StringVal(tv.Value)}
+						}
+					}
+					return nil
+				}
+				var cur ast.Stmt = sw
+				for cur != nil {
+					y, ok := cur.(*ast.IfStmt)
+					if !ok {
+						break
+					}
+					ls := condLits(y.Cond)
+					if ls == nil {
+						break
+					}
+					for _, l := range ls {
+						lits[l] = firstCallee(y.Body.List)
+					}
+					cur = y.Else
+				}
+			default:
+				return true
 			}
 			hit := 0
 			for k := range lits {
@@ -52,7 +103,7 @@ func ruleCropCases(c *Ctx, r *Report) {
 			}
 			if hit >= 4 && len(lits) > len(found) {
 				found = lits
-				pos = c.Pos(sw.Pos())
+				pos = c.Pos(at)
 			}
 			return true
 		})
